@@ -300,7 +300,7 @@ class _Run:
                                                     canon_contents(r.collect()))
                         ct = d._current_time
                         states.append((int(ct) if ct == int(ct) else ct, o))
-                    ticks.append((self.events, states))
+                    ticks.append((sorted(self.events, key=_key), states))
             return (struct, hnodes, ticks)
         finally:
             shutil.rmtree(base, ignore_errors=True)
@@ -437,9 +437,9 @@ def oracle(case, result):
             if kind != 0 and pops != 0:
                 return ('source:get-count', f'{where}: node {i} (not a source) called get() {pops} times')
             if kind in (1, 2) and fires != 1:
-                what = 'foreachRDD action' if any(e[0] == 2 and e[1] == i for e in events) or \
-                    (i in hn and prog[hn.index(i)][0] == FOREACH) else 'function'
-                return (f'fire:{"action" if what != "function" else "function"}-count',
+                is_action = i in hn and prog[hn.index(i)][0] == FOREACH
+                what = 'foreachRDD action' if is_action else 'function'
+                return (f'fire:{"action" if is_action else "function"}-count',
                         f'{where}: {what} of node {i} called {fires} times')
         # contents per API-level stream
         obs = {}
